@@ -209,3 +209,24 @@ V("c09-covariance-transposed-write", "C09", "violation", "C09.R8", edits=[(EP, '
 V("c09-covariance-read-misplaced", "C09", "violation", "C09.R8", edits=[(EP, "                self.covar_21,\n                self.covar_22,", "                self.covar_12,\n                self.covar_22,")])
 V("c09-state-slot-swapped", "C09", "violation", "C09.R8", edits=[(EP, '        kwargs["pos_y_km"] = kwargs["eci"][1]\n        kwargs["pos_z_km"] = kwargs["eci"][2]\n        kwargs["vel_x_km_p_sec"] = kwargs["eci"][3]\n        kwargs["vel_y_km_p_sec"] = kwargs["eci"][4]\n        kwargs["vel_z_km_p_sec"] = kwargs["eci"][5]\n\n        # Remove state vector from kwargs\n        del kwargs["eci"]\n\n        return cls(**kwargs)\n\n\nclass EstimateEphemeris', '        kwargs["pos_y_km"] = kwargs["eci"][2]\n        kwargs["pos_z_km"] = kwargs["eci"][1]\n        kwargs["vel_x_km_p_sec"] = kwargs["eci"][3]\n        kwargs["vel_y_km_p_sec"] = kwargs["eci"][4]\n        kwargs["vel_z_km_p_sec"] = kwargs["eci"][5]\n\n        # Remove state vector from kwargs\n        del kwargs["eci"]\n\n        return cls(**kwargs)\n\n\nclass EstimateEphemeris')])
 V("c09-n-ensure-epoch-every-step", "C09", "pass", edits=[(SC, "        self._pending_epochs[self.clock.datetime_epoch.isoformat(timespec=\"microseconds\")] = (\n            self.current_julian_date\n        )\n\n        # Propagate truth model", "        if not self.database.getData(Query(Epoch).filter(Epoch.timestampISO == self.clock.datetime_epoch.isoformat(timespec=\"microseconds\")), multi=False):\n            self.database.insertData(Epoch(julian_date=self.clock.julian_date_epoch, timestampISO=self.clock.datetime_epoch.isoformat(timespec=\"microseconds\")))\n\n        # Propagate truth model")])
+
+# ------------------------------------------------------------------------------------ C07
+DB = "tasking/decisions/decision_base.py"
+DD = "tasking/decisions/decisions.py"
+RW = "tasking/rewards/rewards.py"
+V("c07-mask-removed", "C07", "violation", "C07.R1", edits=[(DB, "        return decision_matrix & visibility_matrix", "        return decision_matrix")])
+V("c07-policy-overrides-calculate", "C07", "violation", "C07.R1", edits=[(DD, "class AllVisibleDecision(Decision):\n    \"\"\"Optimizes for each sensor independently and tasks all AllVisibleDecision options.\"\"\"\n", "class AllVisibleDecision(Decision):\n    \"\"\"Optimizes for each sensor independently and tasks all AllVisibleDecision options.\"\"\"\n\n    def calculate(self, reward_matrix, visibility_matrix):\n        \"\"\"Shortcut.\"\"\"\n        return reward_matrix > 0.0\n")])
+V("c07-engine-calls-_calculate", "C07", "violation", "C07.R1", edits=[(CE, "self.decision_matrix = self.decision.calculate(self.reward_matrix, self.visibility_matrix)", "self.decision_matrix = self.decision._calculate(self.reward_matrix, self.visibility_matrix)")])
+V("c07-decision-mutated-after", "C07", "violation", "C07.R1", edits=[(CE, "            self.generateTasking()\n", "            self.generateTasking()\n            self.decision_matrix[0, :] = True\n")])
+V("c07-visibility-marked-always", "C07", "violation", "C07.R1", edits=[("parallel/tasking_reward_generation.py", "            visibility[sensor_index] = True\n", ""), ("parallel/tasking_reward_generation.py", "        # Attempt predicted observations, in order to perform sensor tasking\n", "        visibility[sensor_index] = True\n        # Attempt predicted observations, in order to perform sensor tasking\n")])
+V("c07-args-swapped-in-engine", "C07", "violation", "C07.R1", edits=[(CE, "self.decision.calculate(self.reward_matrix, self.visibility_matrix)", "self.decision.calculate(self.visibility_matrix, self.reward_matrix)")])
+V("c07-label-without-class", "C07", "violation", "C07.R3", edits=[("tasking/decisions/__init__.py", "    DecisionLabel.ALL_VISIBLE: AllVisibleDecision,\n", "")])
+V("c07-two-labels-one-class", "C07", "violation", "C07.R3", edits=[("tasking/decisions/__init__.py", "    DecisionLabel.RANDOM: RandomDecision,\n", "    DecisionLabel.RANDOM: MyopicNaiveGreedyDecision,\n")])
+V("c07-greedy-argmin", "C07", "violation", "C07.R4", edits=[(DD, "            tgt_ind = argmax(reward_matrix[:, sen_ind])", "            tgt_ind = argmax(-reward_matrix[:, sen_ind])")])
+V("c07-greedy-row-col-swapped", "C07", "violation", "C07.R4", edits=[(DD, "            tgt_ind = argmax(reward_matrix[:, sen_ind])\n            decision_matrix[tgt_ind, sen_ind] = True", "            tgt_ind = argmax(reward_matrix[:, sen_ind])\n            decision_matrix[sen_ind, tgt_ind] = True")])
+V("c07-munkres-minimised", "C07", "violation", "C07.R4", edits=[(DD, "linear_sum_assignment(reward_matrix, maximize=True)", "linear_sum_assignment(reward_matrix)")])
+V("c07-random-among-all", "C07", "violation", "C07.R4", edits=[(DD, "self._seed.choice(visibility_matrix[:, sen_ind].nonzero()[0], 1)", "self._seed.choice(visibility_matrix.shape[0], 1)")])
+V("c07-reward-sign", "C07", "violation", "C07.R5", edits=[(RW, "        return self._delta * (sign(stability) + information) - (1 - self._delta) * sensor\n", "        return self._delta * (sign(stability) + information) + (1 - self._delta) * sensor\n")])
+V("c07-normalise-by-global-max", "C07", "violation", "C07.R5", edits=[("tasking/rewards/reward_base.py", "                metric_matrix[..., met] /= metric_matrix[..., met].max()", "                metric_matrix[..., met] /= metric_matrix.max()")])
+V("c07-n-mask-inside-too", "C07", "pass", edits=[(DD, "        return where(visibility_matrix > 0.0, True, False)", "        return where(visibility_matrix > 0.0, True, False) & visibility_matrix")])
+V("c07-n-and-sides-swapped", "C07", "pass", edits=[(DB, "        return decision_matrix & visibility_matrix", "        return visibility_matrix & decision_matrix")])
